@@ -434,6 +434,18 @@ def run_algebra(tier, seed):
             fails.append({"property": "C10", "signature": "typeset-changed-by-algebra",
                           "what": "`%s` changed its operand (types / graph before and after differ), so later results of that typeset "
                                   "depend on this call" % label, "op": label})
+        for who, x_ in (("left operand", ts), ("right operand", arg if isinstance(arg, VisionsTypeset) else None), ("result", res)):
+            if x_ is None:
+                continue
+            try:
+                tset, nset = set(x_.types), set(x_.relation_graph.nodes)
+            except Exception:  # noqa
+                continue
+            if tset != nset and not (op in ("iadd", "isub") and who == "left operand"):
+                for prop in ("C14", "C13"):
+                    fails.append({"property": prop, "signature": "typeset-types-differ-from-its-graph",
+                                  "what": "after `%s` the %s is no longer a well-formed typeset: its types %s differ from the nodes of its relation graph %s"
+                                          % (label, who, sorted(map(str, tset)), sorted(map(str, nset))), "op": label})
         if class_changed(cls_before, class_snapshot()):
             fails.append({"property": "C13", "signature": "type-class-modified", "what": "a type class changed", "op": label})
         if want == "KeyError":
